@@ -206,7 +206,9 @@ func (self ValueList) Fields() (map[string]*Value, *VmInterrupt) {
 			if length == 0 {
 				return NewNoneOption(), nil
 			}
-			return NewValueOption((*self.Values)[length-1]), nil
+			// Return a copy: the option must not alias the list's element cell
+			last := *(*self.Values)[length-1]
+			return NewValueOption(&last), nil
 		}),
 		"to_json":        MarshalToString(self),
 		"to_json_indent": MarshalIndentToString(self),
